@@ -243,7 +243,8 @@ def gcv_score(y, z, w, s):
     yy = np.where(w == 0, 0.0, y)
     zz = np.where(w == 0, 0.0, z)
     wsse = float(np.sum(w * (yy - zz) ** 2))
-    return wsse / (N * (1 - trH / N) ** 2), trH, wsse
+    with np.errstate(all="ignore"):
+        return float(np.float64(wsse) / (np.float64(N) * (1 - np.float64(trH) / np.float64(N)) ** 2)), trH, wsse
 
 
 def gcv_select(y, w, llas, solver):
